@@ -180,7 +180,7 @@ def run(module, cfg=None, env=None, workers=None, dump=False, timeout=3600,
     stats["dump"] = dump_path
     stats["run_dir"] = run_dir
     if check and not stats["ok"] and not stats["violated"]:
-        tail = "\n".join(out.splitlines()[-40:])
+        tail = "\n".join(out.splitlines()[-120:])
         raise MachineryError(f"TLC failed on {module} ({cfg}):\n{tail}")
     return stats
 
